@@ -74,3 +74,6 @@
 
 ; ---- message routing (assumed pure functions of the message) ---------------------------------------
 (declare-fun msgSigners (Iface) (GSeq Bytes))    ; signers declared by the cosmos.msg.v1.signer option
+
+; ---- bridge metadata (A-JSON: decoding is a pure function of the bytes) -------------------------------
+(declare-fun permHas (Bytes) Bool)      ; metadata parses as the documented structure and has the perm_channels key
